@@ -1,6 +1,6 @@
 //! Harness self-test (not a property check): exercises the driver's handling of a worker that
-//! hangs, dies, or reports an ordinary violation. `caosim check SELF` must report exactly the three
-//! expected signatures.
+//! hangs, is slow, dies, or reports an ordinary violation. `caosim check SELF` must report exactly the
+//! three expected signatures and one NOTE for the slow case.
 use crate::kernel::{CaseCtx, Check, Tier};
 use serde_json::{json, Value};
 
@@ -31,6 +31,16 @@ impl Check for SelfTest {
                     if x == 42 {
                         std::hint::black_box(x);
                     }
+                }
+            }
+            11 => {
+                // slow, not hung: burns about three times the watchdog allowance, then finishes
+                ctx.progress("slow");
+                let t = std::time::Instant::now();
+                let mut x = 0u64;
+                while t.elapsed().as_secs() < 6 {
+                    x = x.wrapping_mul(6364136223846793005).wrapping_add(1);
+                    std::hint::black_box(x);
                 }
             }
             19 => {
